@@ -368,6 +368,8 @@ impl teos_common::verif::SyncHooks for Sched {
                 g.edges.insert((h, mutex_id));
             }
             g.held[me].push(mutex_id);
+            drop(g);
+            crate::conc::on_after_lock(mutex_id);
         }
     }
 
